@@ -14,29 +14,30 @@ type execAbort struct{ msg string }
 
 // Exec is one activation of a function being executed symbolically.
 type Exec struct {
-	hintSkipped map[*Hint]error
-	hintUsed    map[*Hint]bool
-	u       *Unit
-	fn      *ssa.Function
-	regs    map[ssa.Value]Value
-	depth   int
-	top     bool
-	fc      *FuncContract
-	entry   *State // state at function entry (for old())
-	params  map[string]SVal
-	frame   *Frame // write frame in force (of the top-level function)
-	alloc0  Term
-	stack   []*ssa.Function
-	pure    bool // pure mode: no obligations, no assumptions; merges by ite
-	loopOrd map[*ssa.BasicBlock]int
-	cellable map[*ssa.Alloc]bool
-	callOrd map[ssa.Instruction]int
-	freshBases map[string]bool
-	prefix  string // obligation name prefix (function display name)
+	atomicOp      bool // inside a sync/atomic intrinsic: the write needs no lock
+	hintSkipped   map[*Hint]error
+	hintUsed      map[*Hint]bool
+	u             *Unit
+	fn            *ssa.Function
+	regs          map[ssa.Value]Value
+	depth         int
+	top           bool
+	fc            *FuncContract
+	entry         *State // state at function entry (for old())
+	params        map[string]SVal
+	frame         *Frame // write frame in force (of the top-level function)
+	alloc0        Term
+	stack         []*ssa.Function
+	pure          bool // pure mode: no obligations, no assumptions; merges by ite
+	loopOrd       map[*ssa.BasicBlock]int
+	cellable      map[*ssa.Alloc]bool
+	callOrd       map[ssa.Instruction]int
+	freshBases    map[string]bool
+	prefix        string // obligation name prefix (function display name)
 	curBlockReach Term
-	curInstr ssa.Instruction
-	rets    []retInfo
-	namedResults []*ssa.Alloc
+	curInstr      ssa.Instruction
+	rets          []retInfo
+	namedResults  []*ssa.Alloc
 }
 
 type retInfo struct {
@@ -49,9 +50,9 @@ type retInfo struct {
 
 // Frame: the set of pre-existing locations a function may write.
 type Frame struct {
-	items   []FrameItem
-	any     bool // unspecified: everything writable
-	alloc0  Term
+	items  []FrameItem
+	any    bool // unspecified: everything writable
+	alloc0 Term
 }
 
 type FrameItem struct {
@@ -99,10 +100,10 @@ func (x *Exec) instrPos(i ssa.Instruction) token.Position {
 // CFG analysis
 
 type cfgInfo struct {
-	order     []*ssa.BasicBlock
-	backEdge  map[[2]int]bool
-	headers   map[*ssa.BasicBlock]bool
-	loopBody  map[*ssa.BasicBlock]map[*ssa.BasicBlock]bool
+	order    []*ssa.BasicBlock
+	backEdge map[[2]int]bool
+	headers  map[*ssa.BasicBlock]bool
+	loopBody map[*ssa.BasicBlock]map[*ssa.BasicBlock]bool
 }
 
 func analyzeCFG(fn *ssa.Function) *cfgInfo {
